@@ -147,6 +147,10 @@ def gen_desc(rng: random.Random, pname: str, thorough: bool) -> dict:
         # Circuit.surround is exponential in the block size
         k = min(k, 4)
         nsteps = min(nsteps, 30 if k <= 3 else 20)
+    if pname == 'ScanPartitioner' and big:
+        # ScanPartitioner enumerates all connected qudit groups of size <= k
+        k = min(k, 4)
+        nsteps = min(nsteps, 400)
     refuses = pname in REFUSES_WIDE
     # gates wider than the block size: rare for refusing passes
     allow_wide = (not refuses) or rng.random() < 0.06
@@ -733,7 +737,7 @@ def run(ck: Check):
     names = list(PASS_INFO)
     if os.environ.get('C08_PASSES'):          # development aid
         names = os.environ['C08_PASSES'].split(',')
-    ncases = int(os.environ.get("C08_N", 12000 if thorough else 800))
+    ncases = int(os.environ.get("C08_N", 8000 if thorough else 800))
     if ck.replay_path:
         rp = json.loads(open(ck.replay_path).read())
         descs = [rp['replay']['desc']]
